@@ -276,7 +276,7 @@ impl ModelEvaluator {
   pub fn evaluate_decision(&self, id: &str, input_data: &FeelContext) -> Value {
     if let Ok(decision_evaluator) = self.decision_evaluator() {
       let mut evaluated_ctx = FeelContext::default();
-      if let Some(output_variable_name) = decision_evaluator.evaluate(id, input_data, self, &mut evaluated_ctx) {
+      if let Some(output_variable_name) = decision_evaluator.evaluate(id, input_data, &FeelContext::default(), self, &mut evaluated_ctx) {
         if let Some(output_value) = evaluated_ctx.get_entry(&output_variable_name) {
           output_value.clone()
         } else {
